@@ -47,6 +47,10 @@ pub struct Plan {
     /// instead of `Deserialize::deserialize` — what `Vec<T>`/`Option<T>` do when they reuse storage
     #[serde(default)]
     pub in_place: bool,
+    /// the value of this entry (path of entry indices from the root record) arrives as null /
+    /// unit: the key is there, its data is not. Judged on its own (no other read fault applies).
+    #[serde(default)]
+    pub null_field: Option<Vec<u8>>,
 }
 
 #[derive(Clone, Debug, PartialEq)]
@@ -57,6 +61,8 @@ pub struct Failure {
 
 #[derive(Default, Clone, Debug)]
 pub struct Outcome {
+    /// a `null_field` was applied and judged
+    pub nulled: bool,
     pub failure: Option<Failure>,
     pub harness_error: Option<String>,
     pub evaluated: [u32; ASSERT_IDS.len()],
@@ -128,10 +134,10 @@ fn num_equal(kind_a: Kind, a: u64, kind_b: Kind, b: u64) -> bool {
         let wb = if kind_b == Kind::F32 { (f32::from_bits(b as u32) as f64).to_bits() } else { b };
         wa == wb
     } else {
-        let signed = |k: Kind| matches!(k, Kind::I8 | Kind::I16 | Kind::I32 | Kind::I64 | Kind::I128);
-        let ia: i128 = if signed(kind_a) { a as i64 as i128 } else { a as i128 };
-        let ib: i128 = if signed(kind_b) { b as i64 as i128 } else { b as i128 };
-        ia == ib
+        match (crate::node::int_value(kind_a, a), crate::node::int_value(kind_b, b)) {
+            (Some(x), Some(y)) => x == y,
+            _ => false,
+        }
     }
 }
 
@@ -255,6 +261,46 @@ pub fn leaf_mut<'a>(root: &'a mut Node, path: &[u8]) -> Option<&'a mut Node> {
     }
 }
 
+/// The value reached by following entry indices from the root record (wrappers are transparent).
+pub fn value_mut<'a>(root: &'a mut Node, path: &[u8]) -> Option<&'a mut Node> {
+    let mut cur = root;
+    for &i in path {
+        loop {
+            match cur {
+                Node::Newtype { inner, .. } => cur = inner,
+                Node::Some(inner) => cur = inner,
+                _ => break,
+            }
+        }
+        match cur {
+            Node::Struct { entries, .. } => cur = &mut entries.get_mut(i as usize)?.1,
+            _ => return None,
+        }
+    }
+    Some(cur)
+}
+
+/// Apply a plan's `null_field` to the stored record. Returns the name of the entry.
+pub fn apply_null_field(root: &mut Node, path: &[u8]) -> Option<String> {
+    let (last, rec) = path.split_last()?;
+    let mut cur = value_mut(root, rec)?;
+    loop {
+        match cur {
+            Node::Newtype { inner, .. } => cur = inner,
+            Node::Some(inner) => cur = inner,
+            _ => break,
+        }
+    }
+    match cur {
+        Node::Struct { entries, .. } => {
+            let e = entries.get_mut(*last as usize)?;
+            e.1 = Node::Unit;
+            Some(e.0.clone())
+        }
+        _ => None,
+    }
+}
+
 fn render_leaves(shape: &Shape, leaves: &[u64]) -> String {
     let mut s = String::new();
     let mut at = 0;
@@ -279,7 +325,7 @@ fn first_diff(shape: &Shape, want: &[u64], got: &[u64], skip: &[bool]) -> Option
     None
 }
 
-fn panic_msg(p: Box<dyn std::any::Any + Send>) -> String {
+pub fn panic_msg(p: Box<dyn std::any::Any + Send>) -> String {
     if let Some(s) = p.downcast_ref::<&str>() {
         s.to_string()
     } else if let Some(s) = p.downcast_ref::<String>() {
@@ -311,6 +357,9 @@ pub fn stale_value<T: Subject>() -> T {
 
 /// The only generic part of the read side: hand the medium to `T`, turn what comes back into leaves.
 pub fn read_once<T: Subject>(medium: Medium, root: &Node, rfaults: &[RFault], trace: bool, in_place: bool) -> ReadOutcome {
+    if medium.flat() {
+        return crate::flat::read_flat::<T>(medium, root, rfaults.len(), in_place);
+    }
     let unknown_vals: Vec<Node> = rfaults
         .iter()
         .map(|f| match f {
@@ -780,17 +829,27 @@ pub fn run_plan(ops: &dyn Ops, plan: &Plan, opts: RunOpts) -> Outcome {
 
     // ---- read --------------------------------------------------------------------------
     let mut expected = m.clone();
+    let mut model_kinds = Vec::new();
+    shape.leaf_kinds(&mut model_kinds);
     if let (Some(node), Some(patch)) = (stored.as_mut(), plan.patch.as_ref()) {
         if leaf_paths.len() == m.len() && patch.len() == m.len() {
             let mut ok = true;
+            let mut exp = m.clone();
             for (i, p) in leaf_paths.iter().enumerate() {
                 match leaf_mut(node, p.as_slice()) {
-                    Some(Node::Num { bits, .. }) => *bits = patch[i],
+                    // the same number under the type the writer chose for this component; a
+                    // component whose stored type cannot hold the new number keeps its old one
+                    Some(Node::Num { kind, bits }) => {
+                        if let Some(b) = model_kinds.get(i).and_then(|mk| crate::node::convert_num(*mk, patch[i], *kind)) {
+                            *bits = b;
+                            exp[i] = patch[i];
+                        }
+                    }
                     _ => ok = false,
                 }
             }
             if ok {
-                expected = patch.clone();
+                expected = exp;
             } else {
                 out.harness_error = Some("could not patch stored leaves".to_string());
             }
@@ -800,9 +859,16 @@ pub fn run_plan(ops: &dyn Ops, plan: &Plan, opts: RunOpts) -> Outcome {
     for x in &expected {
         log.u64(*x);
     }
+    let nulled: Option<String> = match (stored.as_mut(), plan.null_field.as_ref()) {
+        (Some(node), Some(path)) if !medium.flat() => apply_null_field(node, path),
+        _ => None,
+    };
+    log.u64(nulled.is_some() as u64);
 
     if let Some(root) = stored.as_ref() {
-        let r: ReadOutcome = ops.read_event(medium, root, &plan.rfaults, opts.trace, plan.in_place);
+        let no_faults: [RFault; 0] = [];
+        let rfaults: &[RFault] = if nulled.is_some() { &no_faults } else { &plan.rfaults };
+        let r: ReadOutcome = ops.read_event(medium, root, rfaults, opts.trace, plan.in_place);
         out.rsteps += r.steps;
         if r.runaway {
             eval!("AR");
@@ -841,7 +907,22 @@ pub fn run_plan(ops: &dyn Ops, plan: &Plan, opts: RunOpts) -> Outcome {
             is_dec,
             patched,
         };
-        let any_applied = judge_read(&mut out, &facts, &shape, &r.result, &expected, &leaf_paths);
+        let any_applied = if let Some(name) = &nulled {
+            // the key arrived, its data did not: whatever would come back for it was not on the medium
+            eval!("A7");
+            out.nulled = true;
+            if let Ok(got) = &r.result {
+                fail!(
+                    "A7",
+                    "the value of field `{}` arrived as null (unit) and deserialize returned Ok({}): that component was never on the medium",
+                    name,
+                    render_leaves(&shape, got)
+                );
+            }
+            true
+        } else {
+            judge_read(&mut out, &facts, &shape, &r.result, &expected, &leaf_paths)
+        };
         if opts.trace {
             let d = out.detail.get_or_insert_with(RunDetail::default);
             d.read_result = match &r.result {
@@ -947,6 +1028,10 @@ pub fn run_plan(ops: &dyn Ops, plan: &Plan, opts: RunOpts) -> Outcome {
     sg.u64(out.sig);
     sg.u64(patched as u64);
     sg.u64(plan.in_place as u64);
+    if let Some(p) = &plan.null_field {
+        sg.u64(0x4e55_4c4c);
+        sg.bytes(p);
+    }
     out.sig = sg.finish();
     if wfaulted {
         out.nontrivial = true;
